@@ -245,7 +245,12 @@ fn check_template(ctx: &Ctx, rep: &mut Report, n: u64, d: Dialect, tpl: &str, la
             }
             1 => {
                 all_plain = false;
-                exprs.push(Expr::col(Alias::new("k")).add(tag));
+                if d == Dialect::Postgres && rng.coin() {
+                    // an enum cast directly as the designated value (needs the Postgres override)
+                    exprs.push(Expr::val(format!("e{tag}")).as_enum(Alias::new("mood")));
+                } else {
+                    exprs.push(Expr::col(Alias::new("k")).add(tag));
+                }
             }
             _ => {
                 let v: Value = tag.into();
@@ -326,7 +331,9 @@ fn check_template(ctx: &Ctx, rep: &mut Report, n: u64, d: Dialect, tpl: &str, la
                 );
             } else {
                 // inject_parameters(build) == to_string, when the text outside quotes has no literal marks
-                let has_literal_mark = segs.iter().any(|s| matches!(s, Seg::Text(t) if outside_quotes_has_mark(d, t)))
+                // `?` dialects: a literal `?` in the built text cannot be told from a placeholder. On Postgres a
+                // `$` that is not followed by a number is not a placeholder, so those statements stay in.
+                let has_literal_mark = (d != Dialect::Postgres && segs.iter().any(|s| matches!(s, Seg::Text(t) if outside_quotes_has_mark(d, t))))
                     || !all_plain;
                 if !has_literal_mark {
                     rep.count("inject_checked", 1);
